@@ -326,14 +326,32 @@ func runC18(r *core.Run) {
 			if p.hot {
 				b = hotBound
 			}
-			ex := sched.NewExplorer(b, maxExec, run, check)
-			ex.Explore(nil)
-			r.Traces += int64(ex.Executions)
-			r.Dim("executions_per_program", bucket(ex.Executions))
+			// iterative context bounding: everything with 0 preemptions, then <= 1, then <= 2; the bound reported as
+			// completed is the last one whose exploration ended without reaching the execution cap
+			completed, execs := -1, 0
+			for bb := 0; bb <= b && fail == nil; bb++ {
+				ex := sched.NewExplorer(bb, maxExec, run, check)
+				ex.Explore(nil)
+				execs += ex.Executions
+				r.Traces += int64(ex.Executions)
+				if ex.Capped {
+					r.CapHit = true
+					r.Note(fmt.Sprintf("execution cap %d hit for program %s at preemption bound %d (bound %d explored completely)", maxExec, id, bb, completed))
+					break
+				}
+				if fail == nil {
+					completed = bb
+				}
+			}
+			r.Dim("executions_per_program", bucket(execs))
 			r.Dim("distinct_outcomes_per_program", fmt.Sprint(len(outcomes)))
-			if ex.Capped {
-				r.CapHit = true
-				r.Note(fmt.Sprintf("execution cap %d hit for program %s at preemption bound %d", maxExec, id, b))
+			r.Dim("preemption_bound_completed", fmt.Sprint(completed))
+			for _, n := range names {
+				if fail == nil {
+					r.Outcome("schedule-independent:" + n)
+				} else {
+					r.Outcome(fail.Kind + ":" + n)
+				}
 			}
 			runtime.GC()
 			return fail
